@@ -23,6 +23,7 @@ type Case struct {
 	L      *Layout           `json:"layout,omitempty"`
 	Ls     []*Layout         `json:"layouts,omitempty"`
 	Files  map[string]string `json:"files,omitempty"`
+	Links  map[string]string `json:"links,omitempty"`
 	Cmd    string            `json:"cmd,omitempty"`
 	Args   []string          `json:"args,omitempty"`
 	ArgSet [][]string        `json:"arg_sets,omitempty"`
